@@ -289,6 +289,49 @@ pub fn run(ctx: &mut Ctx) {
         }
     });
 
+    // a valid SCT list wrapped the way other formats carry it (DER OCTET STRING as in X.509 / OCSP extensions,
+    // an extra u8 / u16 / u24 length prefix, a TLS extension header): read as a bare list the first two bytes
+    // are a declared length; when that exceeds the input no SCT may come back, whatever the rest looks like
+    ctx.floor("wrapped.overlong", 3_000);
+    let n = ctx.tier.pick(12000, 120000);
+    ctx.family("wrapped-lists", n, |ctx, case: &mut Case| {
+        let r = &mut case.rng;
+        let l = gen::sct_vec(r, gen::TINY, 3);
+        let inner = list_bytes(&l).b;
+        let n = inner.len();
+        let mut input: Vec<u8> = match r.below(7) {
+            0 => { let mut v = vec![0x04]; if n < 128 { v.push(n as u8) } else if n < 256 { v.extend([0x81, n as u8]) } else { v.extend([0x82, (n >> 8) as u8, n as u8]) }; v }
+            1 => vec![0x04, 0x82, (n >> 8) as u8, n as u8],
+            2 => vec![0x04, 0x81, n as u8],
+            3 => vec![n as u8],
+            4 => vec![(n >> 16) as u8, (n >> 8) as u8, n as u8],
+            5 => vec![0, 18, (n >> 8) as u8, n as u8],
+            _ => { let m = n + 2; vec![0x04, (m & 0x7f) as u8, 0x04, (n & 0x7f) as u8] }
+        };
+        input.extend_from_slice(&inner);
+        if input.len() < 2 {
+            return;
+        }
+        let declared = u16::from_be_bytes([input[0], input[1]]) as usize;
+        let got = ctx.guarded("parse_ct_signed_certificate_timestamp_list", &input, || {
+            let r = parse_ct_signed_certificate_timestamp_list(&input);
+            (classify(&r), r.as_ref().ok().map(|(_, v)| v.len()))
+        });
+        if let Some((out, k)) = got {
+            ctx.eval();
+            ctx.shape(&("wrapped", lc(n), declared > input.len() - 2, out.class()));
+            if declared > input.len() - 2 {
+                ctx.count("wrapped.overlong");
+                if k.is_some() {
+                    ctx.violation(
+                        "c14:list:declared-length-exceeds-input-yet-accepted".into(),
+                        json!({"declared_list_length": declared, "available_after_length_field": input.len() - 2, "entries_returned": k, "input_hex": hex_short(&input)}),
+                    );
+                }
+            }
+        }
+    });
+
     // entry whose declared length exceeds the list; list whose length exceeds the input
     let n = ctx.tier.pick(24000, 240000);
     ctx.family("corruptions", n, |ctx, case: &mut Case| {
